@@ -6,8 +6,6 @@
 package rig
 
 import (
-	"strings"
-	"strconv"
 	"bufio"
 	"context"
 	"encoding/binary"
@@ -16,9 +14,13 @@ import (
 	"io"
 	"net"
 	"net/url"
+	"os"
+	"strconv"
+	"strings"
 	"sync"
 	"sync/atomic"
 	"time"
+	"verif.local/vstat"
 
 	"git.torproject.org/pluggable-transports/snowflake.git/v2/common/encapsulation"
 	"git.torproject.org/pluggable-transports/snowflake.git/v2/common/turbotunnel"
@@ -84,13 +86,13 @@ type Carrier struct {
 
 // Session is one model client.
 type Session struct {
-	Label    uint64    `json:"label"`
-	UpSize   int64     `json:"up"`
-	DownSize int64     `json:"down"`
-	UpChunk  []int     `json:"upchunk,omitempty"`   // cyclic write sizes of the application on the client side
-	DownChunk []int    `json:"downchunk,omitempty"` // cyclic write sizes of the bridge side
-	Carriers []Carrier `json:"carriers"`            // the last one is healthy (its cut fields are ignored)
-	StartDelayMs int   `json:"start_ms,omitempty"`
+	Label        uint64    `json:"label"`
+	UpSize       int64     `json:"up"`
+	DownSize     int64     `json:"down"`
+	UpChunk      []int     `json:"upchunk,omitempty"`   // cyclic write sizes of the application on the client side
+	DownChunk    []int     `json:"downchunk,omitempty"` // cyclic write sizes of the bridge side
+	Carriers     []Carrier `json:"carriers"`            // the last one is healthy (its cut fields are ignored)
+	StartDelayMs int       `json:"start_ms,omitempty"`
 	// LateStream: once both directions are complete the model client opens a second smux stream
 	// on the same session (a second accepted connection of the same session on the server)
 	LateStream bool `json:"late_stream,omitempty"`
@@ -108,7 +110,7 @@ type sessState struct {
 	downSent int64
 	accepted int32
 	remote   []string
-	err      atomic.Value // string
+	err      atomic.Value  // string
 	done     chan struct{} // closed when the server side has read everything and written everything
 }
 
@@ -131,30 +133,38 @@ var (
 // Get starts (once per process) the server under test.
 func Get() (*Rig, error) {
 	rigOnce.Do(func() {
-		l, err := net.Listen("tcp", "127.0.0.1:0")
-		if err != nil {
-			rigErr = err
-			return
-		}
-		addr := l.Addr().(*net.TCPAddr)
-		l.Close()
-		tr := snowflake_server.NewSnowflakeServer(nil)
-		ln, err := tr.Listen(addr)
-		if err != nil {
-			rigErr = err
-			return
-		}
-		r := &Rig{Addr: addr.String(), ln: ln, sessions: map[uint64]*sessState{}}
-		go r.acceptLoop()
-		// wait for the HTTP server to come up
-		for i := 0; i < 200; i++ {
-			c, err := net.DialTimeout("tcp", r.Addr, 200*time.Millisecond)
-			if err == nil {
-				c.Close()
-				break
+		// The port is picked by listen-and-close and bound again by the server a moment later; under load
+		// another process can take it in between. Listen() reports a bind error only if it arrives within
+		// 100 ms, and a connect test would then succeed against the foreign listener (seen once in a quick
+		// run on a busy machine: every carrier of the shard went to somebody else's port and the case was
+		// reported as a stall). So: the listening socket must belong to this process, else try another port.
+		var r *Rig
+		for try := 0; try < 8 && r == nil; try++ {
+			l, err := net.Listen("tcp", "127.0.0.1:0")
+			if err != nil {
+				rigErr = err
+				return
 			}
-			time.Sleep(10 * time.Millisecond)
+			addr := l.Addr().(*net.TCPAddr)
+			l.Close()
+			tr := snowflake_server.NewSnowflakeServer(nil)
+			ln, err := tr.Listen(addr)
+			if err != nil {
+				rigErr = err
+				continue
+			}
+			if !vstat.WaitListener(os.Getpid(), addr.Port, 10*time.Second) {
+				rigErr = fmt.Errorf("port %d was taken by another process before the server bound it", addr.Port)
+				ln.Close()
+				continue
+			}
+			rigErr = nil
+			r = &Rig{Addr: addr.String(), ln: ln, sessions: map[uint64]*sessState{}}
 		}
+		if r == nil {
+			return
+		}
+		go r.acceptLoop()
 		theRig = r
 	})
 	return theRig, rigErr
@@ -387,20 +397,20 @@ func (c *encapConn) SetWriteDeadline(t time.Time) error { return errors.New("not
 
 // Result of one session.
 type Result struct {
-	Label      uint64
-	Err        string // first violation observed on either side ("" = none)
-	UpDone     bool
-	DownDone   bool
-	UpGot      int64
-	DownGot    int64
-	Accepted   int
-	Remote     []string
-	Carriers   int // carriers actually dialled
+	Label           uint64
+	Err             string // first violation observed on either side ("" = none)
+	UpDone          bool
+	DownDone        bool
+	UpGot           int64
+	DownGot         int64
+	Accepted        int
+	Remote          []string
+	Carriers        int // carriers actually dialled
 	CutsWithUnacked int
-	Stalled    bool
-	FirstIP    string
-	LateOpened bool     // the late stream was opened
-	LateRemote []string // remote address reported for the late stream's accepted connection
+	Stalled         bool
+	FirstIP         string
+	LateOpened      bool     // the late stream was opened
+	LateRemote      []string // remote address reported for the late stream's accepted connection
 }
 
 // dialOne establishes carrier number i of the session through a fresh forwarder.
